@@ -241,6 +241,21 @@ func runPipeStatus() {
 		if obj.GetICount() != ic || obj.IsNonBlocking() != (fl&0x80 != 0) || obj.GetReadMode() != fl&3 {
 			r.Violation("SMB_NMPIPE_STATUS:accessors", fmt.Sprintf("accessors disagree with the fields for word 0x%04X", w), map[string]any{"word": w})
 		}
+		// setters: only their own bits of the encoded word change
+		for _, nb := range []bool{true, false} {
+			o2 := types.SMB_NMPIPE_STATUS{ICount: ic, Flags: fl}
+			o2.SetNonBlockingStatus(nb)
+			o2.SetICount(^ic)
+			e2, err := o2.Marshal()
+			wantW := (w&0x7F00 | int(^ic)) &^ 0x8000
+			if nb {
+				wantW |= 0x8000
+			}
+			r.Eval(1)
+			if err != nil || len(e2) != 2 || int(e2[0])|int(e2[1])<<8 != wantW {
+				r.Violation("SMB_NMPIPE_STATUS:setters", fmt.Sprintf("word 0x%04X, SetNonBlockingStatus(%v), SetICount(%d): encodes as %x, want word 0x%04X", w, nb, ^ic, e2, wantW), map[string]any{"word": w, "nonblocking": nb})
+			}
+		}
 	}
 	r.Count("exhaustive_SMB_NMPIPE_STATUS_words", 65536)
 }
